@@ -20,7 +20,7 @@ RULE = ('mode A: small concurrent programs (2-4 clients x 2-5 calls over 1-3 key
         'evaluations = histories checked; distinct_nontrivial = distinct schedule traces that contained at least one '
         'preemption inside an operation (mode A) plus free runs with overlapping operation pairs (mode B)')
 DISTINCT = ('shared_object_schedules', 'schedules_with_preemption_in_op', 'free_runs_with_overlap')
-REQUIRED = ('fork_runs', 'shared_object_programs', 'shared_object_schedules_judged', 'schedules_interleaved_at_statement_level', 'statement_level_gates_passed', 'calls_joining_an_enclosing_transaction', 'schedules_with_rollbacks_of_waiting_calls', 'histories_checked', 'schedules_shared_object', 'schedules_separate_objects', 'lock_waits_observed',
+REQUIRED = ('schedules_through_a_sharded_cache', 'fork_runs', 'shared_object_programs', 'shared_object_schedules_judged', 'schedules_interleaved_at_statement_level', 'statement_level_gates_passed', 'calls_joining_an_enclosing_transaction', 'schedules_with_rollbacks_of_waiting_calls', 'histories_checked', 'schedules_shared_object', 'schedules_separate_objects', 'lock_waits_observed',
             'file_backed_values', 'free_runs_threads', 'free_runs_processes', 'lru_stat_schedules', 'expired_present_keys',
             'handles_opened_during_schedules', 'partly_consumed_iterations', 'timeouts_under_commit_contention')
 ASSUMPTIONS = ('threads are interleaved at SQL-statement and value-file-operation granularity (where diskcache\'s '
@@ -280,7 +280,17 @@ def mode_a(dc, sc, res, rng, tier, label, variant):
         settings['statistics'] = rng.random() < 0.5
     d = sc.new()
     clock = probe.set_clock(probe.VClock())
-    setup = dc.Cache(d, **settings)
+    # the same calls through a sharded cache (one or two shards) in a fifth of the plain / rollback schedules: every
+    # call goes to the shard of its key and is atomic there
+    sharded = variant in ('plain', 'rollbacks') and rng.random() < 0.2
+    nsh = rng.choice([1, 2])
+    if sharded:
+        res.count('schedules_through_a_sharded_cache')
+        prog = [[o for o in ops if o[0] not in ('iter_open', 'iter_rest')] for ops in prog]
+
+    def open_handle(**kw):
+        return dc.FanoutCache(d, shards=nsh, **kw) if sharded else dc.Cache(d, **kw)
+    setup = open_handle(**settings)
     for k in expired_keys:
         setup.set(k, stamp(8, 0, rng.random() < 0.5) if k != 'n' else 3, expire=-1)
         res.count('expired_present_keys')
@@ -291,7 +301,7 @@ def mode_a(dc, sc, res, rng, tier, label, variant):
     # clients with their own handle open it (and sometimes re-open it) inside the scheduled run, while the others are
     # in the middle of their operations: opening a handle is part of using the directory and must not disturb them
     late = (not shared) and rng.random() < 0.6
-    caches = [setup if shared else None if late else dc.Cache(d, timeout=0) for _ in range(nclients)]
+    caches = [setup if shared else None if late else open_handle(timeout=0) for _ in range(nclients)]
     reopen_at = [rng.randrange(0, len(prog[ci]) + 1) if late and rng.random() < 0.5 else -1 for ci in range(nclients)]
     opened = []
     p_enclosed = 0.5 if variant == 'rollbacks' else 0.1
@@ -319,11 +329,11 @@ def mode_a(dc, sc, res, rng, tier, label, variant):
         def run():
             cache = caches[ci]
             if cache is None:
-                cache = dc.Cache(d, timeout=0)
+                cache = open_handle(timeout=0)
                 opened.append(cache)
             for j, (op, args, kw) in enumerate(prog[ci]):
                 if j == reopen_at[ci]:
-                    cache = dc.Cache(d, timeout=0)
+                    cache = open_handle(timeout=0)
                     opened.append(cache)
                 if (ci, j) in enclosed:
                     # the same individual call, made inside an enclosing transaction of its thread (it joins that
@@ -362,7 +372,7 @@ def mode_a(dc, sc, res, rng, tier, label, variant):
             res.seen('schedules_with_preemption_in_op', sch.trace_hash())
         # final read-out through a fresh handle, appended as reads
         probe.set_controller(None)
-        fresh = dc.Cache(d)
+        fresh = open_handle()
         ops = list(rec.ops)
         t = sch.tick + 10
         for k in keys:
@@ -375,7 +385,8 @@ def mode_a(dc, sc, res, rng, tier, label, variant):
                         'result': len(fresh)})
         fresh.close()
         # every completed operation took effect as a whole: rows, counters and value files agree once all are done
-        problems = observe.invariant(d)
+        problems = [p for sd in ([os.path.join(d, '%03d' % i) for i in range(nsh)] if sharded else [d])
+                    for p in observe.invariant(sd)]
         res.count('quiescent_states_inspected')
         if problems:
             res.violation('after all clients finished their operations: %r' % (problems[:3],), dict(extra, label=label))
